@@ -1,6 +1,7 @@
 """C05 - packets arrive whole, in order and unaltered however the transport fragments."""
 import errno
 import hashlib
+import os
 import socket
 import threading
 
@@ -42,6 +43,18 @@ def payload(seed, size, compressible):
 
 class WouldBlockForever(Exception):
     """the code under test asked the transport for bytes nobody will ever send (harness observation)"""
+
+
+ERRS = {"EPIPE": errno.EPIPE, "ECONNRESET": errno.ECONNRESET, "EHOSTUNREACH": errno.EHOSTUNREACH, "ENETDOWN": errno.ENETDOWN,
+        "ENOBUFS": errno.ENOBUFS, "EIO": errno.EIO}
+
+
+def io_error(name, default):
+    """the OS error an injected fault raises: connection-class ones, other errnos, or a timeout while writing"""
+    if name == "timeout":
+        return socket.timeout("timed out")
+    code = ERRS.get(name, default)
+    return OSError(code, os.strerror(code))
 
 
 class FakeSocket(object):
@@ -100,7 +113,7 @@ class FakeSocket(object):
             if t == 3:
                 raise socket.error(errno.EWOULDBLOCK, "would block")
         if self.read_error_at is not None and self.consumed >= self.read_error_at:
-            raise socket.error(errno.ECONNRESET, "connection reset by peer")
+            raise io_error(getattr(self, "err", None) if getattr(self, "err", None) != "timeout" else None, errno.ECONNRESET)
         limit = len(self.inp)
         if self.read_error_at is not None:
             limit = min(limit, self.read_error_at - self.consumed)
@@ -121,7 +134,7 @@ class FakeSocket(object):
             raise socket.error(errno.EBADF, "send on closed socket")
         self.nsend += 1
         if self.write_error_after is not None and len(self.out) >= self.write_error_after:
-            raise socket.error(errno.EPIPE, "broken pipe")
+            raise io_error(getattr(self, "err", None), errno.EPIPE)
         k = min(len(data), self._frag())
         if self.write_error_after is not None:
             k = min(k, self.write_error_after - len(self.out))
@@ -226,7 +239,8 @@ def check(case, rec):
     if any(f < 64 for f in sfr + rfr) and sum(len(p) for p in pk) > 6000:
         sfr = [max(f, 4096) for f in sfr]
         rfr = [max(f, 4096) for f in rfr]
-    classes = ["kind:" + kind, "compress:send=%d,recv=%d" % (case["scomp"], case["rcomp"]),
+    classes = ["fault-error:%s" % fault[2]] if fault and len(fault) > 2 and fault[2] and fault[0] in ("read-error", "write-error") else []
+    classes += ["kind:" + kind, "compress:send=%d,recv=%d" % (case["scomp"], case["rcomp"]),
                "transients:%d" % len(case["transients"]), "fault:%s" % (fault[0] if fault else "none")]
     for p in pk:
         n = len(p)
@@ -235,6 +249,7 @@ def check(case, rec):
     fails = []
     # ---- sending
     ssock = FakeSocket(frags=sfr, write_error_after=fault[1] if fault and fault[0] == "write-error" else None)
+    ssock.err = fault[2] if fault and len(fault) > 2 else None
     sstream, sshim = make_stream(kind, ssock)
     sch = Channel(sstream, bool(case["scomp"]))
     sent = []
@@ -283,6 +298,7 @@ def check(case, rec):
     rsock = FakeSocket(wire if cut is None or fault[0] == "read-error" else wire[:cut], frags=rfr,
                        transients=case["transients"] if kind == "socket" else (), eof=True,
                        read_error_at=cut if fault and fault[0] == "read-error" else None)
+    rsock.err = fault[2] if fault and len(fault) > 2 else None
     rstream, rshim = make_stream(kind, rsock)
     rch = Channel(rstream, bool(case["rcomp"]))
     avail = len(wire) if cut is None else cut
@@ -445,7 +461,9 @@ def cases(big=False):
         total = sum(n + 6 for n, _, _ in pk)       # upper bound on the wire length (uncompressed)
         pos = st.one_of(st.integers(0, 12), st.integers(0, max(1, total)),
                         st.sampled_from([0, 1, 4, 5, 6] + [x for n, _, _ in pk[:3] for x in (n + 5, n + 6, n + 4) if x >= 0]))
-        fault = st.one_of(st.none(), st.tuples(st.sampled_from(["eof", "eof", "read-error", "write-error"]), pos).map(list))
+        fault = st.one_of(st.none(), st.tuples(st.sampled_from(["eof", "eof", "read-error", "write-error"]), pos,
+                                               st.sampled_from([None, None, "EPIPE", "ECONNRESET", "EHOSTUNREACH", "ENETDOWN", "ENOBUFS",
+                                                                "EIO", "timeout"])).map(list))
         return fault.map(lambda f: dict(c, fault=f))
     base = st.fixed_dictionaries({
         "part": st.just("fake"), "packets": st.lists(pkt, min_size=1, max_size=6), "kind": st.sampled_from(["socket", "socket", "pipe"]),
